@@ -210,6 +210,22 @@ CLAIMED = {
             "paths at the db.DB level are additionally covered byte-for-byte by the C02/C03/C09 graph replays (binary value dictionary).",
             "TLA+ journey and decision-table specifications as oracles: TLC validates recorded end-to-end journeys of generated values and every run of the real CLI binary",
             "DESIGN.md §4 C18"),
+    "C17": ("model_checking",
+            "Backup.tla models the periodic-backup loop step by step (check the write generation / read the live file / the request reaches the "
+            "bucket / outcome incl. the five-minute limit / wait a minute / exit on cancellation) with database writes, a bucket that answers, "
+            "fails or stalls, cancellation and an explicit clock that cannot pass a due step. TLC checks Consistent (every object is a complete "
+            "file version), ChangeDriven, RateLimit, Quiescent (whenever time passes the task waits, uploads or is gone; a cancelled task is gone "
+            "before any time passes), CoverExact (success covers exactly the generation read before the upload) and Settled (quiet and healthy for "
+            "two minutes implies the newest backup is the current file) over all bounded timelines. The real loop (hook "
+            "server.VerifPeriodicBackup, build tag verif) runs under testing/synctest against a real db.DB and an in-memory S3 endpoint on random "
+            "timelines (write bursts, idle stretches up to 10 minutes, failures and stalls at any position, writes racing a stalled upload, "
+            "cancellation at any moment); every write, request body digest, outcome, clock step, cancellation and return is validated by TLC "
+            "(BackupTrace), which places the unlogged steps. A real-time watchdog reports a bubble that never becomes idle (a spinning task), and a "
+            "real-time run through server.New with AWS_ENDPOINT_URL on a loopback listener checks that the task is started and uploads the file.",
+            "Virtual time; the S3 endpoint is an in-memory HTTP client inside a real aws-sdk s3.Client (one attempt per upload). 'Does not hammer the "
+            "database lock' is covered as 'takes no step while waiting'. Quick tier uses a coarser clock grid for the exhaustive check.",
+            "TLC exhaustive check of Backup.tla + TLC trace validation of recorded synctest timelines of the real loop (verif hook) + real-time spin watchdog",
+            "DESIGN.md §4 C17"),
 }
 
 ALL = ["C%02d" % i for i in range(1, 21)]
